@@ -108,11 +108,29 @@ MIN_INSTANCES = {"R1": 25, "R2": 7, "R3": 6, "R4": 1, "R5": 6, "R6": 9}
 class _Mod:
     """Per-module lookups: parent map, enclosing function/class of a node, imports."""
 
+    _CACHE: dict = {}
+
+    @classmethod
+    def of(cls, mod) -> "_Mod":
+        key = (mod.rel, mod.digest)
+        M = cls._CACHE.get(key)
+        if M is None or M.mod is not mod:
+            M = cls._CACHE[key] = cls(mod)
+        return M
+
     def __init__(self, mod):
         self.mod = mod
-        self.pm = parent_map(mod.tree)
+        self.pm: dict = {}
         self.imports: dict[str, str] = {}       # local name -> dotted origin
+        self.calls: list[ast.Call] = []
+        self.stores: list[ast.stmt] = []
         for n in ast.walk(mod.tree):
+            for ch in ast.iter_child_nodes(n):
+                self.pm[ch] = n
+            if isinstance(n, ast.Call):
+                self.calls.append(n)
+            elif isinstance(n, (ast.Assign, ast.AugAssign, ast.AnnAssign)):
+                self.stores.append(n)
             if isinstance(n, ast.Import):
                 for a in n.names:
                     self.imports[a.asname or a.name.split(".")[0]] = a.name if a.asname else a.name.split(".")[0]
@@ -243,7 +261,7 @@ class _Primitives:
 class _World:
     def __init__(self, ctx: Ctx, mods: list):
         self.ctx = ctx
-        self.M = {m.rel: _Mod(m) for m in mods}
+        self.M = {m.rel: _Mod.of(m) for m in mods}
         self.prim = _Primitives(ctx)
         # all classes in scope by name (for mixin-provided methods)
         self.classes: dict[str, list] = {}
@@ -497,7 +515,8 @@ def _equal(a, b, symbols) -> Optional[bool]:
     diff = sp.simplify(a - b)
     if diff == 0:
         return True
-    pts = [{s: sp.Rational(3, 7) + sp.Rational(i, 11) * (k + 1) for k, s in enumerate(symbols)} for i in (1, 2, 3)]
+    pts = [{s: (sp.Rational(3, 7) + sp.Rational(abs(i), 11) * (k + 1)) * (1 if (i > 0 or s.is_positive) else -1)
+            for k, s in enumerate(symbols)} for i in (1, 2, 3, -1, -2)]
     vals = []
     for p in pts:
         try:
@@ -506,8 +525,8 @@ def _equal(a, b, symbols) -> Optional[bool]:
             return None
     if all(v < 1e-10 for v in vals):
         return None  # simplify failed but numerically equal: inconclusive, never a verdict
-    if all(v > 1e-6 for v in vals):
-        return False
+    if any(v > 1e-6 for v in vals):
+        return False  # the two closed forms differ at a concrete rational point
     return None
 
 
@@ -561,6 +580,9 @@ def _classify_manual(call: ast.Call, M: _Mod, advars: Optional[set] = None) -> t
     zero = (isinstance(jac_i, ast.Call) and (dotted(jac_i.func) or "").split(".")[-1] in ("csr_matrix", "csc_matrix")
             and len(jac_i.args) == 1 and not jac_i.keywords and _is_shape(jac_i.args[0])) or \
            (isinstance(jac_i, ast.Constant) and jac_i.value == 0)
+    if not zero and isinstance(val, ast.Name) and _guarded_ndarray(val.id, call, M.pm) and isinstance(jac_i, ast.Call) \
+            and (dotted(jac_i.func) or "").split(".")[-1] in ("eye", "identity", "diags", "eye_array", "ones"):
+        return "bad", "an ndarray (state-independent) value is given a non-zero Jacobian", facts
     if zero:
         if isinstance(val, ast.Name) and _guarded_ndarray(val.id, call, M.pm):
             return "ok", "F1 constant lift: ndarray-guarded value with structurally zero Jacobian", facts
@@ -829,7 +851,7 @@ def run(ctx: Ctx) -> None:
         if m.rel in C01_FILES:
             continue
         M = W.M[m.rel]
-        for call in [n for n in ast.walk(m.tree) if isinstance(n, ast.Call)]:
+        for call in M.calls:
             if not _function_class_call(call, M):
                 continue
             f = call.args[0] if call.args else kwarg(call, "func")
@@ -853,7 +875,7 @@ def run(ctx: Ctx) -> None:
         if m.rel in C01_FILES:
             continue
         M = W.M[m.rel]
-        for call in [n for n in ast.walk(m.tree) if isinstance(n, ast.Call) and _is_adarray_ctor(n)]:
+        for call in [n for n in M.calls if _is_adarray_ctor(n)]:
             par = M.pm.get(call)
             if isinstance(par, ast.Call) and call_name(par) == "isinstance":
                 continue
@@ -913,7 +935,7 @@ def run(ctx: Ctx) -> None:
     n_func = 0
     for m in mods:
         M = W.M[m.rel]
-        for s in [n for n in ast.walk(m.tree) if isinstance(n, (ast.Assign, ast.AugAssign, ast.AnnAssign))]:
+        for s in M.stores:
             targets = s.targets if isinstance(s, ast.Assign) else [s.target]
             for t in targets:
                 if not isinstance(t, ast.Attribute):
@@ -1034,7 +1056,7 @@ MUTANTS = [
     # DESIGN section 9: model-local function with a wrong hand-written Jacobian wrapped in ad.Function
     _m("local-lambda-wrong-jacobian", FPL, 'exp = pp.ad.Function(pp.ad.exp, "density_exponential")',
        'exp = pp.ad.Function(lambda v: pp.ad.AdArray(np.exp(v.val), v._diagvec_mul_jac(np.exp(-v.val))) '
-       'if isinstance(v, pp.ad.AdArray) else np.exp(v), "density_exponential")', "R1", control=True, count=2),
+       'if isinstance(v, pp.ad.AdArray) else np.exp(v), "density_exponential")', "R1", count=2),
     _m("local-sin-with-sin-jacobian", CL, '        f_tan = pp.ad.Function(pp.ad.functions.tan, "tan_function")\n',
        '        def _tan(v):\n            s = np.sin(v.val)\n            return pp.ad.AdArray(s, v._diagvec_mul_jac(s))\n'
        '        f_tan = pp.ad.Function(_tan, "tan_function")\n', "R1"),
@@ -1058,7 +1080,7 @@ MUTANTS = [
        "        assert isinstance(result, AdArray)\n        return result.jac * 0", "R3"),
     _m("func-channel-values-only", OPF, "        op.func = self.func  # type: ignore", "        op.func = self.get_values  # type: ignore", "R4"),
     # approximation-table main terms
-    _m("mpfa-flux-jacobian-of-wrong-operand", CL, "        jac = base_flux @ p.jac\n", "        jac = base_flux @ p_diff.jac\n", "R5"),
+    _m("mpfa-flux-jacobian-of-wrong-operand", CL, "        jac = base_flux @ p.jac\n", "        jac = base_flux @ p_diff.jac\n", "R5", control=True),
     _m("mpfa-product-rule-term-subtracted", CL, "            jac += sps.diags(p_diff.val) @ T_f.jac\n",
        "            jac -= sps.diags(p_diff.val) @ T_f.jac\n", "R5"),
     _m("mpfa-vector-source-different-matrix", CL, "        jac = base_discr.vector_source().parse(self.mdg) @ vs_jac\n",
